@@ -15,7 +15,11 @@ RULE = ("(border) oriented manifold polygon surfaces: quad/tri/mixed grids and c
         "border loops derived from the face list alone; finally a generated sequence of 3-10 calls (extract_border_cycle with / "
         "without / with an invalid start, extract_border_cycle_all, extract_boundary_of_surface, is_vertex_on_border, an only_border "
         "feature detector) on ONE mesh object, every answer validated and mesh.boundary_vertices / boundary_edges / the containers "
-        "compared with the face list after every call. non-trivial = >= 2 border loops. "
+        "compared with the face list after every call (returned lists / dicts are overwritten by the harness after validation, starts are "
+        "also given as numpy ints, an unrelated second mesh is processed in between). Size regime (border_huge): strips, ladders with "
+        "/ without chords, open fans, one polygon, thin annuli with border loops of 1e3 .. 6.6e4 vertices (most between 10050 and "
+        "20500), three drawn starts + the same fresh-mesh calls + a short sequence; features_huge: roofs of 600-2000 cells. "
+        "non-trivial = >= 2 border loops (huge: a loop of > 1000 vertices). "
         "(features) meshes built so that the angle between adjacent face normals is prescribed: a seed (single triangle / regular "
         "n-gon pyramid with one prescribed angle on all its interior edges / 'roof' = extruded profile polyline of planar trapezoid "
         "panels, kept as quads or split, with prescribed ridge angles and deleted cells) + up to 20 triangles folded onto free border "
@@ -122,7 +126,8 @@ def border_case(draw, big=False):
     return {"V": V, "F": F, "tags": tags, "s0": draw(st.integers(0, 10 ** 4)), "probe": draw(st.integers(0, 10 ** 4)), "ops": ops}
 
 
-HUGE_SIZES = [1030, 2100, 4200, 8300, 10050, 10500, 12000, 16500, 33000, 66000]   # around / above 2^10..2^16 and 10^3, 10^4
+# around / above 2^10..2^16 and 10^3, 10^4; the two largest are rare (10-14 s per case)
+HUGE_SIZES = [1030, 2100, 4200, 8300] + [10050, 10500, 12000, 16500] * 3 + [20500, 33000, 20500, 66000]
 
 
 @st.composite
@@ -1122,8 +1127,8 @@ SUBCHECKS = [
     SubCheck("border_large", border_case(big=True), fn_border, quick=160, thorough=400, watchdog=(60, 240)),
     SubCheck("features_large", feature_case(big=True), fn_features, quick=240, thorough=600, watchdog=(60, 240)),
     # size regime (well above any plausible internal threshold): border loops of 1e3 .. 6.6e4 vertices, detector on > 1000 interior vertices
-    SubCheck("border_huge", border_huge_case(), fn_border_huge, quick=32, thorough=12, watchdog=(120, 300)),
-    SubCheck("features_huge", feature_case(big=True, huge=True), fn_features, quick=16, thorough=6, watchdog=(120, 300)),
+    SubCheck("border_huge", border_huge_case(), fn_border_huge, quick=24, thorough=12, watchdog=(120, 300)),
+    SubCheck("features_huge", feature_case(big=True, huge=True), fn_features, quick=8, thorough=6, watchdog=(120, 300)),
 ]
 
 # ---- proposed known-finding matchers (only active when listed in known_findings.json)
